@@ -1,5 +1,958 @@
+// W2: compilation over a faulty file store (C02, literal clause of C20), include resolution with lost files
+// and a retrying provider (C15), and the macro pass loop under a randomised retry budget (C11).
+#include <algorithm>
+#include <climits>
+#include <functional>
+#include <sstream>
+
+#include "Compiler/include/compiler.hpp"
+#include "Compiler/include/macro.hpp"
+#include "Compiler/include/scan.hpp"
+#include "VM/include/verif_hook.hpp"
+#include "hll.hpp"
 #include "sim.hpp"
+
+extern "C" size_t __sanitizer_get_current_allocated_bytes() __attribute__((weak));
+
+using namespace Theo;
+
 namespace sim {
-Plan gen_fs_plan(const std::string &, Rng &, long long, const std::string &) { Plan p; p.world = "fs"; return p; }
-void exec_fs_plan(const Plan &, Ctx &, Outcome &) {}
+
+uint64_t allocated_bytes() { return __sanitizer_get_current_allocated_bytes ? (uint64_t)__sanitizer_get_current_allocated_bytes() : 0; }
+
+namespace {
+
+// ------------------------------------------------------------------------------------------------------
+// token spans of a source text, for placing faults (not a lexer: whitespace-separated words, with the
+// multi-word tokens, quoted names and comments kept whole)
+struct Span { size_t a, b; };
+std::vector<Span> split_tokens(const std::string &t) {
+  std::vector<Span> out;
+  size_t i = 0, n = t.size();
+  auto is_ws = [](char c) { return c == ' ' || c == '\n' || c == '\t' || c == '\r'; };
+  while (i < n) {
+    if (is_ws(t[i])) { i++; continue; }
+    size_t a = i;
+    if (t[i] == '"') { i++; while (i < n && t[i] != '"') i++; if (i < n) i++; }
+    else if (t[i] == '/' && i + 1 < n && t[i + 1] == '/') { while (i < n && t[i] != '\n') i++; }
+    else { while (i < n && !is_ws(t[i])) i++; }
+    out.push_back({a, i});
+  }
+  // merge "!= 0" and "END DEFINE"
+  std::vector<Span> m;
+  for (size_t k = 0; k < out.size(); k++) {
+    std::string w = t.substr(out[k].a, out[k].b - out[k].a);
+    if (k + 1 < out.size() && out[k + 1].a == out[k].b + 1 && t[out[k].b] == ' ') {
+      std::string w2 = t.substr(out[k + 1].a, out[k + 1].b - out[k + 1].a);
+      std::string u = w, u2 = w2;
+      for (auto &c : u) c = (char)toupper((unsigned char)c);
+      for (auto &c : u2) c = (char)toupper((unsigned char)c);
+      if ((w == "!=" && w2 == "0") || (u == "END" && u2 == "DEFINE")) { m.push_back({out[k].a, out[k + 1].b}); k++; continue; }
+    }
+    m.push_back(out[k]);
+  }
+  return m;
+}
+
+const char *INSERT_VOCAB[] = {"$0", "$7", "#1", "<P>", "<V>", "<ID>", "<INT>", "<ARGS>", "AS", "END DEFINE", "DEFINE", "PRIORITY", ",", ";", ":", ":=", "END", "RUN", "WITH",
+                              "(", ")", "include", "\"x\"", "99999999999999999999", "2147483647", "2147483646", "2147483648", "4294967295", "4294967296", "9223372036854775807", "9223372036854775808", "PROGRAM", "IN", "OUT", "DO", "LOOP", "WHILE", "!= 0", "GOTO", "IF", "=", "THEN",
+                              "STOP", "x0", "0", "+", "-", "@", "\x01", "//", "$99999999999", "#99999999999999999999", "__INC__", "__DEC__", "ELSE"};
+const int N_INSERT = sizeof(INSERT_VOCAB) / sizeof(INSERT_VOCAB[0]);
+
+// hand-written inputs of the kind no programmer writes on purpose (property C02's own list, and relatives)
+const char *RAW_CORPUS[] = {
+    "",
+    "x := RUN f WITH 1, END",
+    "PROGRAM f DO x0 := 4 END x := RUN f WITH END",
+    "PROGRAM f DO x0 := 4 END",
+    "PROGRAM f IN a, a OUT a DO a := a END; x := RUN f WITH 1, 2 END",
+    "PROGRAM f IN DO x := 1 END",
+    "PROGRAM f IN a OUT DO x := 1 END",
+    "PROGRAM",
+    "PROGRAM f",
+    "PROGRAM f IN a,",
+    "DEFINE",
+    "DEFINE foo",
+    "DEFINE foo AS",
+    "DEFINE foo AS bar",
+    "DEFINE PRIORITY",
+    "DEFINE PRIORITY 5",
+    "DEFINE PRIORITY 99999999999999999999 foo AS x := 1 END DEFINE foo",
+    "DEFINE DEFINE AS x := 1 END DEFINE y := 2",
+    "DEFINE AS x END DEFINE",
+    "DEFINE foo DEFINE AS x := 1 END DEFINE foo",
+    "DEFINE foo AS AS x := 1 END DEFINE foo",
+    "DEFINE foo <P> AS $0 END DEFINE foo x := 1",
+    "DEFINE foo <ARGS> AS x := RUN f WITH $0 END END DEFINE",
+    "DEFINE foo <ID> AS $1 := 1 END DEFINE foo x",
+    "DEFINE foo <ID> AS $99999999999999999999 := 1 END DEFINE foo x",
+    "DEFINE foo <ID> AS $4294967296 := 1 END DEFINE foo x",
+    "DEFINE foo AS #0 := 1 END DEFINE foo",
+    "DEFINE foo AS END DEFINE foo ; x := 1",
+    "$0 := 1",
+    "#0 := 1",
+    "<P>",
+    "x := <V>",
+    "x := 99999999999999999999",
+    "x := 2147483647",
+    "x := 2147483646; x := x + 2147483646",
+    "IF x = 99999999999 THEN GOTO l; l: x := 1",
+    "x := y + 99999999999999",
+    "x := y - 2147483648",
+    "x := y + 2147483648",
+    "x := y - 4294967296",
+    "x := y - 2147483647",
+    "x := y + 2147483647; x := x + 2147483647",
+    "x := 2147483648",
+    "IF x = 2147483648 THEN GOTO l; l: x := 1",
+    "DEFINE PRIORITY 2147483648 foo AS x := 1 END DEFINE foo",
+    "GOTO nowhere",
+    "l: l: x := 1; GOTO l",
+    "x := 1;",
+    "x := 1;;",
+    ";",
+    "END",
+    "LOOP x DO",
+    "LOOP x DO END",
+    "WHILE x != 0 DO x := x - 1",
+    "x := RUN",
+    "x := RUN f",
+    "x := RUN f WITH",
+    "x := RUN f WITH 1",
+    "x := RUN nosuch WITH 1 END",
+    "x := 1 y := 2",
+    "x := 1 PROGRAM f IN a DO a := 1 END",
+    "x : = 1",
+    "include",
+    "include x",
+    "include \"",
+    "include \"nosuch\"",
+    "include \"main.theo\"",
+    "x := 1 include",
+    "STOP STOP",
+    "x := (1)",
+    "x := 1 // comment without newline",
+    "\xff\xfe\x00garbage",
+    "x := RUN __INC__ WITH x, 1 END",
+    "x := RUN __INC__ WITH 1, x END",
+    "x := RUN __DEC__ WITH x END",
+    "PROGRAM __INC__ IN a, b DO x0 := 7 END x := x + 1",
+    "DEFINE x := <V> AS x := 1 END DEFINE x := 5",
+    "DEFINE <ID> AS x := 1 END DEFINE y",
+    "DEFINE <P> ; AS x := 1 END DEFINE y := 1 ; z := 2",
+    "DEFINE a <ARGS> , AS x := 1 END DEFINE a 1 , 2 ,",
+    "Define a As a a End Define a",
+};
+const int N_RAW = sizeof(RAW_CORPUS) / sizeof(RAW_CORPUS[0]);
+
+std::vector<std::string> file_names(const std::map<std::string, std::string> &files) {
+  std::vector<std::string> n;
+  for (auto &kv : files) n.push_back(kv.first);
+  return n;
+}
+
+int count_lines(const std::string &s) { int n = 1; for (char c : s) if (c == '\n') n++; return n; }
+
+size_t count_word_ci(const std::string &hay, const char *needle) {
+  size_t n = 0, L = strlen(needle);
+  for (size_t i = 0; i + L <= hay.size(); i++) {
+    bool ok = true;
+    for (size_t k = 0; k < L && ok; k++) if (tolower((unsigned char)hay[i + k]) != needle[k]) ok = false;
+    if (ok) n++;
+  }
+  return n;
+}
+
+// ------------------------------------------------------------------------------------------------------
+// work monitor: counts hook events per site (fixed arrays, no allocation) and enforces per-stage bounds
+struct WorkMonitor : HookSink {
+  long long cnt[20] = {0};
+  long long bytes = 0, ndefs_bound = 2, budget = 1024;
+  long long scan_limit = 0;
+  long long detect_in_pass = 0, pass_len = 0, lr_in_start = 0, lr_limit = 0, table_events = 0;
+  long long final_len = -1, max_len = 0, scan_tokens = 0;
+  int exceeded = 0;          // site whose bound was exceeded
+  long long exceeded_count = 0, exceeded_limit = 0;
+  bool growth_abandoned = false;
+  bool slow_abandoned = false;   // legitimately bounded but too slow to be worth simulating (e.g. cubic macro nesting)
+  long long total_events = 0, total_cap = 60000000;
+  long long pass_cost = 0, pass_cost_cap = 50000000;   // sum over passes of (stream length)^2: proxy for the copying a pass does
+  bool enforce = true;
+
+  void over(int site, long long c, long long lim) {
+    if (!enforce) return;
+    exceeded = site; exceeded_count = c; exceeded_limit = lim;
+    throw SimAbort();
+  }
+  void on_point(int site, long a, long b) override {
+    using namespace Theo::verif;
+    if (site < 20) cnt[site]++;
+    if (++total_events > total_cap && enforce) { slow_abandoned = true; throw SimAbort(); }
+    switch (site) {
+      case SCAN_TOKEN: scan_tokens = b; if (cnt[site] > scan_limit) over(site, cnt[site], scan_limit); break;
+      case MACRO_EXTRACT: { long long lim = 16 * (scan_tokens + 16); if (cnt[site] > lim) over(site, cnt[site], lim); break; }
+      case MACRO_PASS:
+        if (cnt[site] > budget) over(site, cnt[site], budget);
+        detect_in_pass = 0; pass_len = b; if (b > max_len) max_len = b;
+        pass_cost += (long long)b * b;
+        if (pass_cost > pass_cost_cap && enforce) { slow_abandoned = true; throw SimAbort(); }
+        if (b > 64 * (scan_tokens + 16) + 100000) { growth_abandoned = true; throw SimAbort(); }
+        break;
+      case MACRO_PASS_END: final_len = a; if (a > max_len) max_len = a; break;
+      case MACRO_DETECT: {
+        detect_in_pass++;
+        long long lim = (ndefs_bound + 4) * (pass_len + 2);
+        if (detect_in_pass > lim) over(site, detect_in_pass, lim);
+        lr_in_start = 0; lr_limit = 32 * (b - a + 16);
+        break;
+      }
+      case LR_ACTION: lr_in_start++; if (lr_in_start > lr_limit && lr_limit > 0) over(site, lr_in_start, lr_limit); break;
+      case LR_FIRST_ROUND: case LR_HULL_ROUND: case LR_ELEMENTS: {
+        table_events++;
+        long long lim = (ndefs_bound + 4) * 2 * (4000000LL + 20000LL * bytes);
+        if (table_events > lim) over(site, table_events, lim);
+        break;
+      }
+      case PARSE_P: case PARSE_TRAILING: {
+        long long L = final_len >= 0 ? final_len : max_len;
+        long long lim = 8 * (L + 32);
+        if (cnt[PARSE_P] + cnt[PARSE_TRAILING] > lim) over(site, cnt[PARSE_P] + cnt[PARSE_TRAILING], lim);
+        break;
+      }
+      case GEN_NODE: {
+        long long L = final_len >= 0 ? final_len : max_len;
+        long long lim = 64 * (L + 32);
+        if (cnt[site] > lim) over(site, cnt[site], lim);
+        break;
+      }
+      default: break;
+    }
+  }
+  long long total() const { long long t = 0; for (auto c : cnt) t += c; return t; }
+};
+
+const char *site_name(int s) {
+  static const char *n[] = {"?", "scan loop", "macro pass loop", "macro pass end", "macro detection", "LR driver", "FIRST-set fixpoint", "closure fixpoint", "LR state construction",
+                            "statement parser", "?", "?", "trailing-input loop", "code generator", "VM", "macro extraction"};
+  return s >= 0 && s < 16 ? n[s] : "?";
+}
+
+// result of one monitored compile, plain data only
+struct CompileSummary {
+  bool returned = false, ok = false;
+  int nerrors = 0, nrequests = 0;
+  int bad_error = 0;      // 1 empty message, 2 unknown file, 3 line outside file
+  char bad_detail[200] = {0};
+  bool reached_max_passes = false;
+  long long code_size = 0;
+};
+
+struct FsWorld {
+  const Plan &plan;
+  Ctx &ctx;
+  Outcome &out;
+  FsWorld(const Plan &p, Ctx &c, Outcome &o) : plan(p), ctx(c), out(o) {}
+  long long knob(const char *k, long long d) const { auto it = plan.knobs.find(k); return it == plan.knobs.end() ? d : it->second; }
+
+  static void warm_up() {
+    static bool done = false;
+    if (done) return;
+    done = true;
+    std::map<std::string, std::string> f = {{"m", "include \"n\" PROGRAM f IN a OUT b DO b := a + 1 END DEFINE sw <ID> AS #0 := $0 END DEFINE x := RUN f WITH 2 END; sw x; IF x = 1 THEN GOTO l; l: LOOP x DO x := x - 1 END; WHILE x != 0 DO STOP END; y := 99999999999 z"}, {"n", "k := 1;"}};
+    { CodegenResult r = Theo::compile(f, "m"); (void)r; }
+    { CodegenResult r = Theo::compile(f, "absent main file"); (void)r; }
+    { std::string s = std::to_string(12345) + std::to_string(-1); (void)s; }
+  }
+
+  // ---------------------------------------------------------------- faults on the store
+  std::map<std::string, std::string> delivered;
+  std::string main_name;
+  bool main_lost = false;
+  int faults_fired = 0;
+
+  void apply_faults() {
+    delivered = plan.proj.files;
+    main_name = plan.proj.main;
+    for (const Op &op : plan.ops) {
+      std::vector<std::string> names = file_names(delivered);
+      auto pick_file = [&](long long i) -> std::string * { if (names.empty()) return nullptr; return &delivered[names[(size_t)(i < 0 ? -i : i) % names.size()]]; };
+      auto fired = [&](const char *kind) { ctx.stats.inc(std::string("fault_") + kind); faults_fired++; };
+      if (op.k == "file_lost") {
+        if (names.empty()) continue;
+        std::string n = names[(size_t)op.a % names.size()];
+        if (n == main_name) { fired("main_lost"); main_lost = true; } else fired("file_lost");
+        delivered.erase(n);
+      } else if (op.k == "main_lost") { if (delivered.erase(main_name)) { fired("main_lost"); main_lost = true; } }
+      else if (op.k == "file_empty") { if (auto f = pick_file(op.a)) { f->clear(); fired("file_empty"); } }
+      else if (op.k == "trunc_byte") { if (auto f = pick_file(op.a)) { f->resize((size_t)op.b % (f->size() + 1)); fired("truncate_at_byte"); } }
+      else if (op.k == "trunc_tok") {
+        if (auto f = pick_file(op.a)) { auto sp = split_tokens(*f); if (!sp.empty()) { f->resize(sp[(size_t)op.b % sp.size()].a); fired("truncate_at_token"); } }
+      } else if (op.k == "byte_flip") {
+        if (auto f = pick_file(op.a)) if (!f->empty()) { size_t i = (size_t)op.b % f->size(); (*f)[i] = op.c >= 256 ? (char)((*f)[i] ^ (1 << (op.c & 7))) : (char)op.c; fired("byte_flip"); }
+      } else if (op.k == "tok_drop" || op.k == "tok_dup" || op.k == "tok_swap" || op.k == "tok_insert" || op.k == "tok_replace") {
+        auto f = pick_file(op.a);
+        if (!f) continue;
+        auto sp = split_tokens(*f);
+        if (sp.empty()) { if (op.k == "tok_insert") { *f = op.s; fired("token_insert"); } continue; }
+        size_t i = (size_t)op.b % sp.size();
+        std::string w = f->substr(sp[i].a, sp[i].b - sp[i].a);
+        if (op.k == "tok_drop") { f->erase(sp[i].a, sp[i].b - sp[i].a); fired("token_drop"); }
+        else if (op.k == "tok_dup") { f->insert(sp[i].b, " " + w); fired("token_dup"); }
+        else if (op.k == "tok_swap") {
+          if (i + 1 >= sp.size()) continue;
+          std::string w2 = f->substr(sp[i + 1].a, sp[i + 1].b - sp[i + 1].a);
+          std::string mid = f->substr(sp[i].b, sp[i + 1].a - sp[i].b);
+          f->replace(sp[i].a, sp[i + 1].b - sp[i].a, w2 + mid + w);
+          fired("token_swap");
+        } else if (op.k == "tok_insert") { f->insert(sp[i].a, op.s + " "); fired("token_insert"); }
+        else { f->replace(sp[i].a, sp[i].b - sp[i].a, op.s); fired("token_replace"); }
+      } else if (op.k == "lit_inflate") {
+        // the a-th integer literal of the program text (as the printer marked it) gets b digits
+        const Project &p = plan.proj;
+        std::vector<const PTok *> lits;
+        bool in_def = false;
+        for (auto &t : p.toks) {
+          std::string u = t.text; for (auto &c : u) c = (char)toupper((unsigned char)c);
+          if (u == "DEFINE" || u == "DEF") in_def = true;
+          bool prio_or_slot = false;
+          if (t.kind == 1 && in_def && &t > &p.toks[0]) { std::string pu = (&t - 1)->text; for (auto &c : pu) c = (char)toupper((unsigned char)c); prio_or_slot = pu == "PRIORITY" || pu == "PRIO"; }
+          if (t.kind == 1 && (!in_def || prio_or_slot)) lits.push_back(&t);
+          if (u == "END DEFINE" || u == "ENDDEF") in_def = false;
+        }
+        if (lits.empty()) continue;
+        const PTok *t = lits[(size_t)op.a % lits.size()];
+        // find that token in its file by (line, occurrence order): re-split the file and match the k-th token with equal text on that line
+        auto it = delivered.find(t->loc.file);
+        if (it == delivered.end()) continue;
+        std::string &f = it->second;
+        auto sp = split_tokens(f);
+        int line = 1; size_t pos = 0; int seen_before = 0;
+        for (auto &q : p.toks) { if (&q == t) break; if (q.loc == t->loc && q.text == t->text) seen_before++; }
+        for (auto &s : sp) {
+          while (pos < s.a) { if (f[pos] == '\n') line++; pos++; }
+          if (line == t->loc.line && f.substr(s.a, s.b - s.a) == t->text) {
+            if (seen_before-- == 0) {
+              std::string big;
+              int nd = (int)std::max<long long>(10, std::min<long long>(40, op.b));
+              if (nd == 10) big = op.c ? "2147483647" : "2147483648"; else { big = "9"; for (int k = 1; k < nd; k++) big += (char)('0' + (k * 7) % 10); }
+              f.replace(s.a, s.b - s.a, big);
+              fired("literal_inflate");
+              break;
+            }
+          }
+        }
+      } else if (op.k == "raw") {
+        if (auto f = pick_file(op.a)) { *f = op.s; fired("raw_corpus_input"); }
+      } else if (op.k == "rename_main") {
+        auto it = delivered.find(main_name);
+        if (it != delivered.end()) { std::string c = it->second; delivered.erase(it); delivered[op.s] = c; main_name = op.s; fired("odd_main_name"); }
+      }
+    }
+  }
+
+  // ---------------------------------------------------------------- one monitored compile
+  CompileSummary monitored_compile(const std::map<std::string, std::string> &files, const std::string &main, WorkMonitor &mon, bool measure_leak, bool &leaked, long long &leak_bytes) {
+    CompileSummary s;
+    long long bytes = 200;
+    size_t defs = 2;
+    for (auto &kv : files) { bytes += (long long)kv.second.size(); defs += count_word_ci(kv.second, "def"); }
+    mon.bytes = bytes; mon.ndefs_bound = (long long)defs; mon.budget = 1024;
+    mon.scan_limit = (bytes + 64) * 64;
+    leaked = false; leak_bytes = 0;
+    uint64_t before = measure_leak ? allocated_bytes() : 0;
+    bool aborted = false;
+    {
+      HookGuard hg(&mon);
+      set_phase(PH_COMPILE);
+      try {
+        CodegenResult r = Theo::compile(files, main);
+        set_phase(PH_HARNESS);
+        s.returned = true; s.ok = r.generated_correctly; s.nerrors = (int)r.errors.size(); s.nrequests = (int)r.file_requests.size();
+        s.code_size = (long long)r.code.code.size();
+        for (auto &e : r.errors) {
+          if (e.message.find("too many macro substitutions") != std::string::npos) s.reached_max_passes = true;
+          if (s.bad_error) continue;
+          if (e.message.empty()) { s.bad_error = 1; snprintf(s.bad_detail, sizeof s.bad_detail, "error with an empty message at %.60s:%d", e.file.c_str(), e.line); continue; }
+          if (e.file == "-") continue;
+          if (e.file == "__standards__" && !files.count("__standards__")) { if (e.line < 1) { s.bad_error = 3; snprintf(s.bad_detail, sizeof s.bad_detail, "line %d in the standard-macro file: %.80s", e.line, e.message.c_str()); } continue; }
+          auto it = files.find(e.file);
+          if (it == files.end()) { s.bad_error = 2; snprintf(s.bad_detail, sizeof s.bad_detail, "error located in '%.50s' (line %d), which was not supplied: %.80s", e.file.c_str(), e.line, e.message.c_str()); continue; }
+          if (e.line < 1 || e.line > count_lines(it->second)) { s.bad_error = 3; snprintf(s.bad_detail, sizeof s.bad_detail, "error at %.50s:%d but the file has %d lines: %.80s", e.file.c_str(), e.line, count_lines(it->second), e.message.c_str()); }
+        }
+      } catch (SimAbort &) { aborted = true; set_phase(PH_HARNESS); }
+    }
+    if (measure_leak && !aborted && before) {
+      uint64_t after = allocated_bytes();
+      if (after != before) { leaked = true; leak_bytes = (long long)after - (long long)before; }
+    }
+    return s;
+  }
+
+  void judge_totality(const CompileSummary &s, const WorkMonitor &mon, bool leaked, long long leak_bytes, const char *what) {
+    if (mon.growth_abandoned) { ctx.stats.inc("skipped_growth"); return; }
+    if (mon.slow_abandoned) { ctx.stats.inc("skipped_slow"); return; }
+    if (mon.exceeded) {
+      ctx.check(false, "C02", "bounded_work", std::string(what) + ": the " + site_name(mon.exceeded) + " took " + std::to_string(mon.exceeded_count) + " steps, bound for this input " + std::to_string(mon.exceeded_limit));
+      return;
+    }
+    if (!s.returned) return;
+    if (leaked) ctx.check(false, "C02", "no_leak", std::string(what) + ": " + std::to_string(leak_bytes) + " bytes still allocated after the result was dropped");
+    if (s.ok && s.nerrors > 0) ctx.check(false, "C02", "correct_xor_errors", std::string(what) + ": marked correct with " + std::to_string(s.nerrors) + " errors");
+    if (!s.ok && s.nerrors == 0) ctx.check(false, "C02", "correct_xor_errors", std::string(what) + ": marked incorrect without any error");
+    if (s.bad_error) ctx.check(false, "C02", "error_location_valid", std::string(what) + ": " + s.bad_detail);
+  }
+
+  // ---------------------------------------------------------------- C02 / C20-literal run
+  void run_fs() {
+    warm_up();
+    apply_faults();
+    std::string brief;
+    for (auto &kv : delivered) brief += "[" + kv.first + "]" + kv.second + "\x1e";
+    ctx.evs("delivered", brief);
+    ctx.evs("main", main_name);
+    WorkMonitor mon;
+    bool leaked; long long leak_bytes;
+    CompileSummary s = monitored_compile(delivered, main_name, mon, true, leaked, leak_bytes);
+    ctx.ev("compiled", s.returned, s.ok, s.nerrors);
+    ctx.ev("work", mon.total(), mon.cnt[Theo::verif::MACRO_PASS], mon.final_len);
+    ctx.sim_steps += mon.total();
+    judge_totality(s, mon, leaked, leak_bytes, "compile");
+    if (s.returned) {
+      ctx.stats.inc(s.ok ? "compile_ok" : "compile_rejected");
+      if (s.reached_max_passes) ctx.stats.inc("probe_budget_exhausted");
+      if (main_lost) ctx.stats.inc("probe_main_file_lost");
+    }
+    // literal clause of C20
+    if (ctx.stats.c.count("fault_literal_inflate") && s.returned) {
+      if (s.ok || s.nerrors == 0) ctx.check(false, "C20", "oversized_literal_rejected", "a literal that does not fit the word was accepted (" + std::to_string(s.nerrors) + " errors)");
+      ctx.stats.inc("c20_inflated_literals_checked");
+    }
+    if (faults_fired == 0 && s.returned && !s.ok && plan.proj.has_ast && !plan.proj.ast.dup_params) ctx.stats.inc("rejected_valid");
+    out.nontrivial = s.returned && (faults_fired > 0);
+    Hasher h; h.add_str(brief); h.add_str(main_name);
+    out.state_sig = h.get();
+    g_hll_states.add(out.state_sig);
+  }
+
+  // ---------------------------------------------------------------- C15
+  struct Item { int kind; int marker; std::string target; };  // 0 marker, 1 include, 2 dangling include
+  std::map<std::string, std::vector<Item>> items;
+  std::vector<std::string> order;   // file names in declaration order; order[0] is the main file
+
+  void build_topology() {
+    // ops: {k:"file", s:name} starts a file; {k:"m", a:id}; {k:"inc", s:target}; {k:"dangle"}; faults: {k:"lost", s:name}
+    std::string cur;
+    for (const Op &op : plan.ops) {
+      if (op.k == "file") { cur = op.s; if (!items.count(cur)) { items[cur] = {}; order.push_back(cur); } }
+      else if (cur.empty() && op.k != "lost") continue;
+      else if (op.k == "m") items[cur].push_back({0, (int)op.a, ""});
+      else if (op.k == "inc") items[cur].push_back({1, 0, op.s});
+      else if (op.k == "dangle") items[cur].push_back({2, 0, ""});
+    }
+    // what happens to the token right after an include without a name is not specified; keep directives away
+    // from that position by putting a marker in between (markers 9000+ exist only for this)
+    int extra = 9000;
+    for (auto &kv : items)
+      for (size_t i = 0; i + 1 < kv.second.size(); i++)
+        if (kv.second[i].kind == 2 && kv.second[i + 1].kind != 0) { kv.second.insert(kv.second.begin() + i + 1, Item{0, extra++, ""}); }
+  }
+  std::string file_text(const std::string &name) {
+    std::string t;
+    const auto &v = items[name];
+    for (size_t i = 0; i < v.size(); i++) {
+      if (v[i].kind == 0) t += "m" + std::to_string(v[i].marker) + " := " + std::to_string(v[i].marker) + " ;";
+      else if (v[i].kind == 1) t += "include \"" + v[i].target + "\"";
+      else t += "include";
+      t += "\n";
+    }
+    return t;
+  }
+
+  struct MErr { int type; std::string file; int line_lo, line_hi; std::string request; };
+  struct Model {
+    std::vector<std::pair<int, Loc>> markers;
+    std::vector<MErr> errors;
+    std::set<std::string> requests;
+    long long tokens = 0;
+    bool has_dangling = false, recursive_seen = false, repeated_seq = false;
+  };
+
+  void model_walk(const std::string &f, const std::set<std::string> &present, std::vector<std::string> &stack, Model &m, int depth) {
+    const auto &v = items[f];
+    m.tokens += 2;
+    std::string last_inc;
+    for (size_t i = 0; i < v.size(); i++) {
+      int line = (int)i + 1;
+      if (v[i].kind == 0) { m.markers.push_back({v[i].marker, {f, line}}); m.tokens += 4; last_inc.clear(); }
+      else if (v[i].kind == 2) {
+        m.has_dangling = true;
+        m.tokens += 2;
+        m.errors.push_back({ParseError::EXPECTED_FILENAME, f, line, i + 1 < v.size() ? line + 1 : line, ""});
+        last_inc.clear();
+      } else {
+        m.tokens += 2;
+        const std::string &t = v[i].target;
+        if (!present.count(t)) { m.errors.push_back({ParseError::FILE_NOT_FOUND, f, line, line, t}); m.requests.insert(t); }
+        else if (std::find(stack.begin(), stack.end(), t) != stack.end()) { m.errors.push_back({ParseError::RECURSIVE_INCLUDE, f, line, line, ""}); m.recursive_seen = true; }
+        else if (depth < 40) {
+          if (last_inc == t) m.repeated_seq = true;
+          stack.push_back(t);
+          model_walk(t, present, stack, m, depth + 1);
+          stack.pop_back();
+        }
+        last_inc = t;
+      }
+    }
+  }
+  Model model(const std::set<std::string> &present, const std::string &main) {
+    Model m;
+    if (!present.count(main)) { m.errors.push_back({ParseError::MAIN_FILE_NOT_FOUND, "-", -1, -1, main}); m.requests.insert(main); return m; }
+    std::vector<std::string> stack = {main};
+    model_walk(main, present, stack, m, 0);
+    return m;
+  }
+
+  static const char *perr_name(int t) {
+    switch (t) { case ParseError::MAIN_FILE_NOT_FOUND: return "MAIN_FILE_NOT_FOUND"; case ParseError::EXPECTED_FILENAME: return "EXPECTED_FILENAME"; case ParseError::FILE_NOT_FOUND: return "FILE_NOT_FOUND"; case ParseError::RECURSIVE_INCLUDE: return "RECURSIVE_INCLUDE"; default: return "other"; }
+  }
+
+  void run_incl() {
+    warm_up();
+    build_topology();
+    if (order.empty()) return;
+    std::string main = order[0];
+    std::map<std::string, std::string> pristine;
+    for (auto &n : order) pristine[n] = file_text(n);
+    std::set<std::string> lost;
+    for (const Op &op : plan.ops) if (op.k == "lost" && pristine.count(op.s)) lost.insert(op.s);
+    std::map<std::string, std::string> store;
+    std::set<std::string> present;
+    for (auto &kv : pristine) if (!lost.count(kv.first)) { store[kv.first] = kv.second; present.insert(kv.first); }
+    for (auto &l : lost) ctx.stats.inc(l == main ? "fault_main_lost" : "fault_file_lost");
+    std::string brief;
+    for (auto &kv : store) brief += "[" + kv.first + "]" + kv.second + "\x1e";
+    ctx.evs("store", brief);
+    Hasher gh; gh.add_str(brief); out.state_sig = gh.get(); g_hll_states.add(out.state_sig);
+
+    Model m = model(present, main);
+    if (m.has_dangling) ctx.stats.inc("fault_include_dangling");
+    if (m.recursive_seen) ctx.stats.inc("probe_recursive_include_detected");
+    if (m.repeated_seq) ctx.stats.inc("probe_same_file_included_twice_in_sequence");
+    if (lost.count(main)) ctx.stats.inc("probe_main_file_lost");
+
+    // ---- Theo::scan against the resolver model
+    WorkMonitor mon;
+    mon.scan_limit = 2 * m.tokens + 64;
+    ScanResult sr;
+    bool aborted = false;
+    {
+      HookGuard hg(&mon);
+      set_phase(PH_SCAN);
+      try { sr = Theo::scan(store, main); } catch (SimAbort &) { aborted = true; }
+      set_phase(PH_HARNESS);
+    }
+    ctx.ev("scanned", (long long)sr.toks.size(), (long long)sr.errors.size(), mon.cnt[Theo::verif::SCAN_TOKEN]);
+    ctx.sim_steps += mon.total();
+    if (aborted && mon.slow_abandoned) { ctx.stats.inc("skipped_slow"); return; }
+    if (aborted) {
+      ctx.check(false, "C15", "scan_terminates", "scanning took " + std::to_string(mon.exceeded_count) + " token steps; the include structure allows " + std::to_string(mon.exceeded_limit));
+      return;
+    }
+    // errors: multiset comparison on (type, file, line range)
+    std::vector<MErr> want = m.errors;
+    std::vector<std::string> got_requests;
+    for (auto &e : sr.errors) {
+      if (e.t != ParseError::MAIN_FILE_NOT_FOUND && e.t != ParseError::EXPECTED_FILENAME && e.t != ParseError::FILE_NOT_FOUND && e.t != ParseError::RECURSIVE_INCLUDE) continue;
+      bool found = false;
+      for (size_t i = 0; i < want.size(); i++)
+        if (want[i].type == (int)e.t && want[i].file == e.file && e.line >= want[i].line_lo && e.line <= want[i].line_hi) {
+          if ((e.t == ParseError::FILE_NOT_FOUND || e.t == ParseError::MAIN_FILE_NOT_FOUND) && e.file_request != want[i].request)
+            ctx.check(false, "C15", "request_names_missing_file", std::string(perr_name(e.t)) + " at " + e.file + ":" + std::to_string(e.line) + " requests '" + e.file_request + "', the missing file is '" + want[i].request + "'");
+          want.erase(want.begin() + i); found = true; break;
+        }
+      if (!found) ctx.check(false, "C15", "include_errors_match_model", std::string("unexpected ") + perr_name(e.t) + " at " + e.file + ":" + std::to_string(e.line) + " (" + e.msg + ")");
+    }
+    if (!want.empty()) ctx.check(false, "C15", "include_errors_match_model", std::string("missing ") + perr_name(want[0].type) + " at " + want[0].file + ":" + std::to_string(want[0].line_lo) + (want[0].request.empty() ? "" : " for '" + want[0].request + "'"));
+    // token order / labels
+    if (!m.has_dangling) {
+      std::vector<std::pair<int, Loc>> got;
+      for (auto &t : sr.toks) if (t.t == Token::ID && t.text.size() > 1 && t.text[0] == 'm') got.push_back({atoi(t.text.c_str() + 1), {t.file, t.line}});
+      bool same = got.size() == m.markers.size();
+      for (size_t i = 0; same && i < got.size(); i++) if (got[i].first != m.markers[i].first || !(got[i].second == m.markers[i].second)) same = false;
+      if (!same) {
+        std::string a, b;
+        for (auto &g : got) a += "m" + std::to_string(g.first) + "@" + g.second.file + ":" + std::to_string(g.second.line) + " ";
+        for (auto &g : m.markers) b += "m" + std::to_string(g.first) + "@" + g.second.file + ":" + std::to_string(g.second.line) + " ";
+        ctx.check(false, "C15", "include_splices_in_place", "token order/labels [" + a + "] expected [" + b + "]");
+      }
+    }
+    if (sr.toks.empty() || sr.toks.back().t != Token::T_EOF) ctx.check(false, "C15", "stream_ends_with_eof", "token stream does not end with the end-of-file token");
+
+    // ---- Theo::compile: requests and messages
+    {
+      WorkMonitor mon2; bool leaked; long long lb;
+      CompileSummary s = monitored_compile(store, main, mon2, false, leaked, lb);
+      ctx.sim_steps += mon2.total();
+      if (mon2.exceeded && !mon2.slow_abandoned) ctx.check(false, "C15", "scan_terminates", std::string("compile: the ") + site_name(mon2.exceeded) + " exceeded its bound");
+    }
+    std::set<std::string> req;
+    std::vector<std::string> msgs;
+    auto compile_once = [&](const std::map<std::string, std::string> &st) {
+      req.clear(); msgs.clear();
+      set_phase(PH_COMPILE);
+      CodegenResult r = Theo::compile(st, main);
+      set_phase(PH_HARNESS);
+      for (auto &q : r.file_requests) req.insert(q);
+      for (auto &e : r.errors) msgs.push_back(e.message);
+      return r.generated_correctly;
+    };
+    compile_once(store);
+    if (req != m.requests) {
+      std::string a, b;
+      for (auto &q : req) a += "'" + q + "' ";
+      for (auto &q : m.requests) b += "'" + q + "' ";
+      ctx.check(false, "C15", "file_requests_exact", "file_requests {" + a + "} expected {" + b + "}");
+    }
+    for (auto &e : m.errors) {
+      std::string needle = e.type == ParseError::FILE_NOT_FOUND ? "file '" + e.request + "' not found" : e.type == ParseError::MAIN_FILE_NOT_FOUND ? "main file '" + e.request + "' not found"
+                           : e.type == ParseError::RECURSIVE_INCLUDE ? "included recursively" : "expected filename after include";
+      bool found = false;
+      for (auto &msg : msgs) if (msg.find(needle) != std::string::npos) found = true;
+      if (!found) ctx.check(false, "C15", "compile_reports_include_errors", std::string("compile does not report ") + perr_name(e.type) + " (" + needle + ")");
+    }
+    // ---- liveness: the provider answers requests from the pristine store and retries
+    std::map<std::string, std::string> st = store;
+    std::set<std::string> ever_requested;
+    int rounds = 0;
+    bool ended = false;
+    for (; rounds <= (int)order.size() + 1; rounds++) {
+      compile_once(st);
+      bool news = false;
+      for (auto &q : req) if (!ever_requested.count(q)) { news = true; ever_requested.insert(q); }
+      bool added = false;
+      for (auto &q : req) if (pristine.count(q) && !st.count(q)) { st[q] = pristine[q]; added = true; }
+      ctx.ev("provider_round", rounds, (long long)req.size(), added);
+      if (!added) { ended = true; (void)news; break; }
+    }
+    ctx.stats.max("max_provider_rounds", rounds);
+    ctx.stats.inc("provider_loops");
+    if (!ended) ctx.check(false, "C15", "provider_loop_ends", "request/retry loop still asking for files after " + std::to_string(rounds) + " rounds with " + std::to_string(order.size()) + " files");
+    else {
+      // fixed point: whatever is still requested exists nowhere
+      for (auto &q : req) if (pristine.count(q)) ctx.check(false, "C15", "provider_loop_ends", "file '" + q + "' was supplied and is still requested");
+      std::set<std::string> all;
+      for (auto &kv : st) all.insert(kv.first);
+      Model fm = model(all, main);
+      if (req != fm.requests) ctx.check(false, "C15", "file_requests_exact", "after the provider loop the requests differ from the names that exist nowhere");
+      if (fm.requests.empty()) for (auto &msg : msgs) if (msg.find("not found") != std::string::npos) ctx.check(false, "C15", "no_error_when_all_present", "all files supplied, still: " + msg);
+    }
+    out.nontrivial = !m.errors.empty() || order.size() > 1;
+  }
+
+  // ---------------------------------------------------------------- C11
+  void run_macro() {
+    warm_up();
+    long long budget = std::max<long long>(1, knob("budget", 1024));
+    bool divergent = knob("divergent", 0) != 0;
+    std::map<std::string, std::string> files = plan.proj.files;
+    std::string main = plan.proj.main;
+    ctx.evs("source", files.count(main) ? files[main] : "");
+    ctx.ev("budget", budget, divergent);
+    set_phase(PH_SCAN);
+    ScanResult sr = Theo::scan(files, main);
+    set_phase(PH_MACRO);
+    MacroExtractionResult mer = Theo::extract_macros(sr.toks);
+    ctx.stats.inc("macro_defs", (long long)mer.macros.size());
+    WorkMonitor mon;
+    mon.budget = budget; mon.bytes = 0; mon.ndefs_bound = (long long)mer.macros.size() + 2; mon.scan_tokens = (long long)sr.toks.size();
+    for (auto &kv : files) mon.bytes += (long long)kv.second.size();
+    MacroApplicationResult res;
+    bool aborted = false;
+    {
+      HookGuard hg(&mon);
+      try { res = Theo::apply_macros(mer.tokens, mer.macros, (unsigned)budget); } catch (SimAbort &) { aborted = true; }
+    }
+    set_phase(PH_HARNESS);
+    long long passes = mon.cnt[Theo::verif::MACRO_PASS];
+    ctx.ev("applied", passes, mon.final_len, (long long)res.errors.size());
+    ctx.sim_steps += mon.total();
+    ctx.stats.max("max_passes_used", passes);
+    if (mon.growth_abandoned) { ctx.stats.inc("skipped_growth"); return; }
+    if (mon.slow_abandoned) { ctx.stats.inc("skipped_slow"); return; }
+    if (aborted) {
+      if (mon.exceeded == Theo::verif::MACRO_PASS) ctx.check(false, "C11", "passes_within_budget", "the pass loop was entered " + std::to_string(mon.exceeded_count) + " times with a budget of " + std::to_string(budget));
+      else ctx.check(false, "C11", "expansion_returns", std::string("the ") + site_name(mon.exceeded) + " exceeded its bound (" + std::to_string(mon.exceeded_count) + " > " + std::to_string(mon.exceeded_limit) + ")");
+      return;
+    }
+    if (passes > budget) ctx.check(false, "C11", "passes_within_budget", std::to_string(passes) + " passes with a budget of " + std::to_string(budget));
+    bool reported = false;
+    for (auto &e : res.errors) if (e.t == ParseError::MACRO_APPLY_REACHED_MAX_PASSES) reported = true;
+    if (passes == budget) ctx.stats.inc(reported ? "probe_budget_exhausted" : "probe_budget_exactly_enough_no_error");
+    // was rewriting still possible?  one more pass on the output tells
+    WorkMonitor mon2; mon2.budget = 1; mon2.ndefs_bound = mon.ndefs_bound; mon2.scan_tokens = mon.scan_tokens; mon2.bytes = mon.bytes;
+    MacroApplicationResult again;
+    {
+      HookGuard hg(&mon2);
+      set_phase(PH_MACRO);
+      try { again = Theo::apply_macros(res.transformed_sequence, mer.macros, 1); } catch (SimAbort &) {}
+      set_phase(PH_HARNESS);
+    }
+    bool still = false;
+    for (auto &e : again.errors) if (e.t == ParseError::MACRO_APPLY_REACHED_MAX_PASSES) still = true;
+    ctx.ev("still_rewritable", still, reported);
+    if (still) ctx.stats.inc("unfinished_expansions");
+    if (still && !reported) ctx.check(false, "C11", "unfinished_expansion_reported", "after " + std::to_string(passes) + " passes (budget " + std::to_string(budget) + ") a pattern still matches, but no too-many-substitutions error was reported");
+    if (divergent && !reported) ctx.check(false, "C11", "unfinished_expansion_reported", "divergent macro set returned without the too-many-substitutions error (budget " + std::to_string(budget) + ")");
+    if (divergent) ctx.stats.inc("fault_divergent_macro_set");
+    // end to end on the compiler's own budget
+    if (knob("end_to_end", 0)) {
+      WorkMonitor m3; bool leaked; long long lb;
+      CompileSummary s = monitored_compile(files, main, m3, false, leaked, lb);
+      ctx.sim_steps += m3.total();
+      ctx.stats.inc("end_to_end_compiles");
+      if (m3.growth_abandoned) ctx.stats.inc("skipped_growth");
+      else if (m3.slow_abandoned) ctx.stats.inc("skipped_slow");
+      else if (m3.exceeded) ctx.check(false, "C11", "expansion_returns", std::string("compile: the ") + site_name(m3.exceeded) + " exceeded its bound");
+      else if (s.returned) {
+        if (m3.cnt[Theo::verif::MACRO_PASS] > 1024) ctx.check(false, "C11", "passes_within_budget", "compile made more than 1024 passes");
+        if (divergent && s.ok) ctx.check(false, "C11", "unfinished_never_correct", "a divergent macro set compiled as a correct program");
+        if (m3.cnt[Theo::verif::MACRO_PASS] >= 1024 && s.ok) {
+          // exhausted budget and accepted: only fine if the expansion was complete
+          ctx.stats.inc("probe_budget_exhausted_end_to_end");
+        }
+      }
+    }
+    out.nontrivial = passes >= 1 && !mer.macros.empty();
+    Hasher h; h.add_str(files[main]); h.add((uint64_t)budget); out.state_sig = h.get(); g_hll_states.add(out.state_sig);
+  }
+};
+
+}  // namespace
+
+void exec_fs_plan(const Plan &plan, Ctx &ctx, Outcome &out) {
+  FsWorld w(plan, ctx, out);
+  if (plan.world == "incl") w.run_incl();
+  else if (plan.world == "macro") w.run_macro();
+  else w.run_fs();
+  auto it = plan.knobs.find("enum_total");
+  if (it != plan.knobs.end()) out.more_subs = plan.sub + 1 < it->second;
+}
+
+// =====================================================================================================
+// plan generation
+// =====================================================================================================
+namespace {
+
+Project valid_project(Rng &rng, bool thorough, unsigned macros, bool boundary) {
+  GenParams gp;
+  gp.max_defs = 3; gp.max_stmts = (int)rng.range(2, thorough ? 10 : 6); gp.max_depth = (int)rng.range(1, 3); gp.max_const = 5;
+  gp.allow_noparam = true; gp.allow_stop = rng.chance(1, 4);
+  gp.macros = macros; gp.boundary_values = boundary;
+  Project p;
+  p.has_ast = true;
+  p.ast = generate_ast(rng, gp);
+  p.layout.seed = rng.next(); p.layout.style = rng.chance(2, 3) ? 0 : 1; p.layout.nfiles = rng.chance(1, 2) ? 1 : (int)rng.range(2, 4); p.layout.spelling = (int)rng.below(4);
+  render(p);
+  return p;
+}
+
+Op random_fault(Rng &rng, const Project &p) {
+  Op o;
+  int w = (int)rng.below(100);
+  o.a = (long long)rng.below(8);
+  o.b = (long long)rng.below(100000);
+  if (w < 5) o.k = "file_lost";
+  else if (w < 8) o.k = "main_lost";
+  else if (w < 11) o.k = "file_empty";
+  else if (w < 20) o.k = "trunc_byte";
+  else if (w < 32) o.k = "trunc_tok";
+  else if (w < 40) { o.k = "byte_flip"; o.c = rng.chance(1, 2) ? 256 + (long long)rng.below(8) : (long long)rng.below(256); }
+  else if (w < 55) o.k = "tok_drop";
+  else if (w < 62) o.k = "tok_dup";
+  else if (w < 72) o.k = "tok_swap";
+  else if (w < 85) { o.k = "tok_insert"; o.s = INSERT_VOCAB[rng.below(N_INSERT)]; }
+  else if (w < 92) { o.k = "tok_replace"; o.s = INSERT_VOCAB[rng.below(N_INSERT)]; }
+  else { o.k = "lit_inflate"; o.a = (long long)rng.below(64); o.b = rng.chance(1, 2) ? 10 : rng.range(11, 40); o.c = rng.chance(1, 2); }
+  (void)p;
+  return o;
+}
+
+const char *ODD_NAMES[] = {"", "a b.theo", "main.theo", "x", "a.b.c", "-", "dir/sub.theo", "//x"};
+
+Plan gen_incl_plan(Rng &rng, long long sub, bool thorough) {
+  Plan p;
+  p.world = "incl";
+  int nfiles = (int)rng.range(1, thorough ? 5 : 4);
+  std::vector<std::string> names;
+  for (int i = 0; i < nfiles; i++) {
+    std::string n = i == 0 ? "main.theo" : "f" + std::to_string(i);
+    if (rng.chance(1, 12)) n = ODD_NAMES[rng.below(8)];
+    if (std::find(names.begin(), names.end(), n) != names.end()) n += std::to_string(i);
+    names.push_back(n);
+  }
+  int marker = 1;
+  for (int i = 0; i < nfiles; i++) {
+    Op f; f.k = "file"; f.s = names[(size_t)i]; p.ops.push_back(f);
+    int nitems = (int)rng.range(0, 5);
+    int ndir = 0;
+    for (int k = 0; k < nitems; k++) {
+      int w = (int)rng.below(100);
+      if (w < 45 || ndir >= 3) { Op m; m.k = "m"; m.a = marker++; p.ops.push_back(m); }
+      else if (w < 92) {
+        Op inc; inc.k = "inc";
+        int tw = (int)rng.below(100);
+        if (tw < 70) inc.s = names[rng.below(names.size())];          // any file: self, earlier (cycles), later
+        else if (tw < 85 && !p.ops.empty() && p.ops.back().k == "inc") inc.s = p.ops.back().s;  // the same file again, in sequence
+        else if (tw < 93) inc.s = "missing" + std::to_string(rng.below(3));
+        else inc.s = names[0];
+        p.ops.push_back(inc); ndir++;
+      } else { Op d; d.k = "dangle"; p.ops.push_back(d); ndir++; }
+    }
+  }
+  // lost files: thorough enumerates all subsets of <= 2 files through `sub`; quick samples
+  std::vector<std::vector<int>> subsets = {{}};
+  for (int i = 0; i < nfiles; i++) subsets.push_back({i});
+  for (int i = 0; i < nfiles; i++) for (int j = i + 1; j < nfiles; j++) subsets.push_back({i, j});
+  size_t which;
+  if (thorough) { which = (size_t)sub % subsets.size(); p.knobs["enum_total"] = (long long)subsets.size(); }
+  else which = rng.chance(1, 3) ? 0 : rng.below(subsets.size());
+  for (int i : subsets[which]) { Op l; l.k = "lost"; l.s = names[(size_t)i]; p.ops.push_back(l); }
+  p.note = "include topology, " + std::to_string(nfiles) + " files, lost subset #" + std::to_string(which);
+  // the text in clear, for the reader of a replay file (the executor derives it again from the ops)
+  return p;
+}
+
+struct MacroFam { const char *defs; const char *use; bool divergent; bool dup_slot; bool cheap = false; };
+const MacroFam MACRO_FAMS[] = {
+    {"DEFINE ping AS pong END DEFINE DEFINE pong AS x := 1 ; ping END DEFINE", "ping", true, false},
+    {"DEFINE a AS a END DEFINE", "a", true, false, true},
+    {"DEFINE a AS a ; a END DEFINE", "a", true, false},
+    {"DEFINE grow <ID> AS $0 := 1 ; grow $0 END DEFINE", "grow x", true, false},
+    {"DEFINE twice <ID> AS twice $0 ; twice $0 END DEFINE", "twice x", true, true},
+    {"DEFINE a AS b END DEFINE DEFINE b AS c END DEFINE DEFINE c AS a END DEFINE", "a", true, false, true},
+    {"DEFINE PRIO 5 up <V> AS up RUN f WITH $0 END END DEFINE", "y := 1 ; up 3", true, false},
+    {"DEFINE nop AS x := 0 END DEFINE", "nop ; nop ; nop ; nop ; nop", false, false},
+    {"DEFINE inc <ID> AS $0 := $0 + 1 END DEFINE", "inc x ; inc y ; inc x", false, false},
+    {"DEFINE d1 AS d2 ; d2 END DEFINE DEFINE d2 AS d3 ; d3 END DEFINE DEFINE d3 AS x := x + 1 END DEFINE", "d1 ; d1", false, false},
+    {"DEFINE PRIO 30 <ID> ( <ARGS> ) AS RUN $0 WITH $1 END END DEFINE", "PROGRAM f IN a DO x0 := a END x := f ( f ( f ( 1 ) ) )", false, false},
+    {"DEFINE sw <ID> <ID> AS #0 := $0 ; $0 := $1 ; $1 := #0 END DEFINE", "sw a b ; sw b c ; sw a c", false, false},
+    {"DEFINE IF <V> THEN <P> ELSE <P> END AS #0 := $0 ; LOOP #0 DO $1 END ; $2 END DEFINE", "IF x THEN y := 1 ELSE IF y THEN z := 1 ELSE z := 2 END END", false, false},
+    {"DEFINE cnt <INT> AS x := x + $0 END DEFINE", "cnt 1 ; cnt 2 ; cnt 3 ; cnt 4 ; cnt 5 ; cnt 6 ; cnt 7 ; cnt 8", false, false},
+    {"DEFINE a <P> AS $0 END DEFINE", "a x := 1", false, false},
+    {"DEFINE PRIO 2 lo AS hi END DEFINE DEFINE PRIO 9 hi AS x := 1 END DEFINE", "lo ; lo ; hi", false, false},
+};
+const int N_FAMS = sizeof(MACRO_FAMS) / sizeof(MACRO_FAMS[0]);
+
+Plan gen_macro_plan(Rng &rng, bool thorough) {
+  Plan p;
+  p.world = "macro";
+  std::string text;
+  bool divergent = false, dup = false, cheap = false, family = false;
+  int w = (int)rng.below(100);
+  if (w < 70) {
+    const MacroFam &f = MACRO_FAMS[rng.below(N_FAMS)];
+    divergent = f.divergent; dup = f.dup_slot; cheap = f.cheap; family = true;
+    int reps = divergent ? 1 : (int)rng.range(1, thorough ? 12 : 6);
+    text = std::string(f.defs) + "\n";
+    for (int i = 0; i < reps; i++) { if (i) text += " ;\n"; text += f.use; }
+    p.note = "macro family";
+  } else {
+    // random macro sets over a small vocabulary; divergence unknown (decided by the second-pass oracle)
+    const char *lits[] = {"a", "b", "c", "+", "!", "x", "1"};
+    const char *slots[] = {"<ID>", "<INT>", "<V>"};
+    int nd = (int)rng.range(1, 3);
+    for (int d = 0; d < nd; d++) {
+      text += "DEFINE ";
+      if (rng.chance(1, 3)) text += "PRIO " + std::to_string(rng.below(4)) + " ";
+      int rl = (int)rng.range(1, 3), nslots = 0;
+      for (int i = 0; i < rl; i++) { if (rng.chance(1, 4)) { text += std::string(slots[rng.below(3)]) + " "; nslots++; } else text += std::string(lits[rng.below(5)]) + " "; }
+      text += "AS ";
+      int bl = (int)rng.range(0, 4);
+      for (int i = 0; i < bl; i++) {
+        int bw = (int)rng.below(10);
+        if (bw < 2 && nslots) text += "$" + std::to_string(rng.below((uint64_t)nslots)) + " ";
+        else if (bw < 3) text += "#" + std::to_string(rng.below(2)) + " ";
+        else text += std::string(lits[rng.below(7)]) + " ";
+      }
+      text += "END DEFINE\n";
+    }
+    int ul = (int)rng.range(1, 8);
+    for (int i = 0; i < ul; i++) text += std::string(lits[rng.below(7)]) + " ";
+    p.note = "random macro set";
+  }
+  // the compiler's own budget (1024) only where 1024 passes stay cheap: convergent families, and divergent
+  // ones whose stream does not grow; growing divergent sets cost quadratic-to-cubic work per run (bounded,
+  // but slow) and get small budgets, a growing one at 1024 only very rarely
+  long long budget = rng.range(1, 64);
+  if (family && !divergent && rng.chance(1, 6)) budget = 1024;
+  if (family && divergent && cheap && rng.chance(1, 3)) budget = 1024;
+  if (family && divergent && !cheap && !dup && rng.chance(1, 150)) budget = rng.chance(1, 2) ? 1024 : rng.range(65, 300);
+  if (dup && budget > 16) budget = rng.range(1, 16);
+  p.knobs["budget"] = budget;
+  p.knobs["divergent"] = divergent;
+  if (family && !dup && (!divergent || cheap) && rng.chance(1, 6)) p.knobs["end_to_end"] = 1;
+  if (family && divergent && !cheap && !dup && rng.chance(1, 300)) p.knobs["end_to_end"] = 1;
+  p.proj.files["main.theo"] = text;
+  p.proj.main = "main.theo";
+  return p;
+}
+
+}  // namespace
+
+Plan gen_fs_plan(const std::string &prop, Rng &rng, long long sub, const std::string &tier) {
+  bool thorough = tier == "thorough";
+  if (prop == "C15") return gen_incl_plan(rng, sub, thorough);
+  if (prop == "C11") return gen_macro_plan(rng, thorough);
+  Plan p;
+  p.world = "fs";
+  if (prop == "C20") {
+    unsigned macros = rng.chance(1, 2) ? (unsigned)rng.below(16) : 0;
+    p.proj = valid_project(rng, thorough, macros, false);
+    Op o; o.k = "lit_inflate"; o.a = (long long)rng.below(64); o.b = rng.chance(1, 3) ? 10 : rng.range(11, 40); o.c = rng.chance(1, 2);
+    p.ops.push_back(o);
+    p.note = "literal inflation";
+    return p;
+  }
+  // C02
+  int mode = (int)rng.below(100);
+  if (mode < 12) {
+    // hand-written corpus input as the main file, possibly with one more fault on top
+    p.proj.files["main.theo"] = "x := 1";
+    p.proj.main = "main.theo";
+    Op o; o.k = "raw"; o.a = 0; o.s = RAW_CORPUS[rng.below(N_RAW)];
+    p.ops.push_back(o);
+    if (rng.chance(1, 3)) p.ops.push_back(random_fault(rng, p.proj));
+    p.note = "corpus input";
+    return p;
+  }
+  unsigned macros = rng.chance(1, 2) ? (unsigned)rng.below(16) : 0;
+  p.proj = valid_project(rng, thorough, macros, rng.chance(1, 10));
+  if (thorough && mode < 50) {
+    // systematic single-fault sweep over this workload: sub enumerates (kind, position)
+    size_t ntok = 0;
+    for (auto &kv : p.proj.files) ntok += split_tokens(kv.second).size();
+    long long per_kind = (long long)ntok + (long long)p.proj.files.size() + 1;
+    long long total = per_kind * 4;
+    long long s = sub % total;
+    Op o;
+    long long kind = s / per_kind, pos = s % per_kind;
+    // positions are global token indices: map to (file, index)
+    std::vector<std::string> names = file_names(p.proj.files);
+    long long fi = 0, ti = pos;
+    for (size_t i = 0; i < names.size(); i++) { long long n = (long long)split_tokens(p.proj.files[names[i]]).size() + 1; if (ti < n) { fi = (long long)i; break; } ti -= n; fi = (long long)i; }
+    o.a = fi; o.b = ti;
+    if (kind == 0) o.k = "trunc_tok"; else if (kind == 1) o.k = "tok_drop"; else if (kind == 2) o.k = "tok_swap"; else { o.k = ti % 2 ? "file_lost" : "tok_dup"; }
+    p.ops.push_back(o);
+    p.knobs["enum_total"] = total;
+    p.note = "single-fault sweep " + std::to_string(s) + "/" + std::to_string(total);
+    return p;
+  }
+  int nf = mode < 60 ? 0 : (int)rng.range(1, 3);
+  if (mode >= 12 && mode < 20) nf = 0;
+  for (int i = 0; i < nf; i++) p.ops.push_back(random_fault(rng, p.proj));
+  if (rng.chance(1, 25)) { Op o; o.k = "rename_main"; o.s = ODD_NAMES[rng.below(8)]; p.ops.push_back(o); }
+  p.note = nf ? "valid project + faults" : "valid project, no fault";
+  return p;
+}
+
 }  // namespace sim
